@@ -733,6 +733,7 @@ func (db *SpecDB) keysFor(pkgPath string) []string {
 // evaluation
 
 type SpecEnv struct {
+	boundNames  map[string]string // contract identifier -> name of the variable it was bound to (rename fallback)
 	st          *State
 	old         *State
 	vars        map[string]Val
@@ -1067,8 +1068,12 @@ func (env *SpecEnv) addrOf(e ast.Expr) Val {
 	case *ast.Ident:
 		// a captured variable: the closure holds its address
 		st := env.cur()
+		name := x.Name
+		if rn := st.ctx.eng.renamedIdent(st.fr.fn, name); rn != "" {
+			name = rn
+		}
 		for _, fv := range st.fr.fn.FreeVars {
-			if fv.Name() == x.Name {
+			if fv.Name() == name {
 				if v, ok := st.fr.regs[fv]; ok && v.P != nil {
 					return v
 				}
@@ -1572,7 +1577,17 @@ func (env *SpecEnv) evalCall(x *ast.CallExpr) Val {
 		if !ok {
 			specFail("visited needs the ranged map variable")
 		}
-		g, ok := env.cur().ghost["$visited!"+id.Name]
+		vname := id.Name
+		func() {
+			// the map variable may have been renamed: resolve it as any other identifier and use the
+			// name of the variable it is bound to
+			defer func() { recover() }()
+			env.evalGo(id)
+		}()
+		if rn, ok := env.boundNames[id.Name]; ok {
+			vname = rn
+		}
+		g, ok := env.cur().ghost["$visited!"+vname]
 		if !ok {
 			specFail("unknown identifier: no range over %s in progress", id.Name)
 		}
@@ -1588,7 +1603,17 @@ func (env *SpecEnv) evalCall(x *ast.CallExpr) Val {
 		default:
 			specFail("visitedkey needs the ranged map variable or field")
 		}
-		g, ok := env.cur().ghost["$vset!"+id.Name]
+		vname := id.Name
+		if a, isIdent := x.Args[0].(*ast.Ident); isIdent {
+			func() {
+				defer func() { recover() }()
+				env.evalGo(a)
+			}()
+			if rn, ok := env.boundNames[a.Name]; ok {
+				vname = rn
+			}
+		}
+		g, ok := env.cur().ghost["$vset!"+vname]
 		if !ok {
 			specFail("unknown identifier: no range over %s in progress", id.Name)
 		}
@@ -1612,10 +1637,13 @@ func (env *SpecEnv) evalCall(x *ast.CallExpr) Val {
 				start = i + 1
 			}
 		}
+		evMatch := func(evName string) bool {
+			return evName == name || (strings.HasSuffix(name, ":*") && strings.HasPrefix(evName, name[:len(name)-1]))
+		}
 		if fname == "itercount" {
 			n := 0
 			for _, ev := range tr[start:] {
-				if ev.Name == name {
+				if evMatch(ev.Name) {
 					n++
 				}
 			}
@@ -1626,7 +1654,7 @@ func (env *SpecEnv) evalCall(x *ast.CallExpr) Val {
 			specFail("iterarg needs a literal index")
 		}
 		for _, ev := range tr[start:] {
-			if ev.Name == name {
+			if evMatch(ev.Name) {
 				if int(kv.Int64()) >= len(ev.Args) {
 					specFail("event %s has %d arguments", name, len(ev.Args))
 				}
